@@ -9,6 +9,10 @@ claimed = {
    text='Seeded search over goroutine interleavings: every run executes one concurrent template natively and in the interpreter from one choice list under a parking scheduler that decides who runs at every yield (statement-level in the interpreter); oracles are the native twin (determinate observations and lockstep histories), a channel reference model replaying the completion-ordered history (admissible-outcome check for select and racing senders) and ThreadSanitizer with the scheduler handshakes hidden from it. Exploration, not proof: a clean batch is evidence over the sampled schedules only.',
    note='Trusted: Go toolchain (native twin), testing/synctest quiescence detection, ThreadSanitizer, the channel model (validated on every run against the history compiled Go produced). Interleavings finer than one interpreted statement are only race-detected. Templates are fixed programs with seeded behaviour; Go picks among ready select cases itself (recorded, replay re-rolls).',
    technique='deterministic simulation: seeded parking scheduler in a synctest bubble + native twin + channel reference model + race detector'),
+ 'C07': dict(level='exploration', design='3.6',
+   text='Seeded defer/panic/recover call trees (one fixed universal template; every frame draws its defers, panics, recursion) executed natively and in the interpreter from one choice list, first fault-free and then with a panic injected at every fault point of the tree (enumerated per tree) with panic values of 6 dynamic types; the event logs (defer order, recovered values, results, escaping panic) must be equal event by event. A separate battery covers deferred builtin calls.',
+   note='Trusted: the Go toolchain as oracle. Excluded by documentation: recover inside compiled functions deferred by interpreted code, panic(nil), text of runtime-error panics. One fixed template: no syntactic variety.',
+   technique='deterministic simulation: seeded fault plan (panic at every point) over a universal call tree + native twin, event-by-event'),
  'C33': dict(level='exploration', design='3.2',
    text='Seeded search over interleavings of the goroutine-registry protocol: short-lived goroutines enter interpreted code through go statements (named function, literal) and through compiled code calling interpreted closures, with yield points at every registry step (lookup, create, store, delete) and every statement; the identity source is either the real one (checked for constancy/uniqueness against runtime goroutine numbers) or a simulated pool of 3 identities with immediate reuse after exit. An ownership monitor at every frame allocation/release asserts that the runtime record and frames in use belong to the current live task only; results are compared with the native twin; ThreadSanitizer runs with the scheduler handshakes hidden.',
    note='Trusted: testing/synctest quiescence, runtime goroutine numbers (runtime.Stack) as ground truth for identity, ThreadSanitizer. The assembly GoID is observed, not explored. At most 3 live goroutines and 12 per run.',
